@@ -498,7 +498,7 @@ func coreGenParams(g *Rng, focus string) coreParams {
 		NoticeNs:   []int64{1000000000, 5000000000, 12000000000}[g.Intn(3)],
 		NActors:    8, NRollapps: 2 + g.Intn(2), MinBond: []uint64{10, 100}[g.Intn(2)],
 	}
-	if focus == "C08" && g.Chance(50) {
+	if (focus == "C08" || focus == "C11") && g.Chance(50) {
 		p.LsBlocks, p.LsInterval = uint64(1+g.Intn(3)), uint64(1+g.Intn(2))
 	}
 	return p
@@ -527,13 +527,13 @@ func (c *coreGen) next(s *coreSnap, inBlock *bool, step int) string {
 		return fmt.Sprintf("begin dt=%d", dt)
 	}
 	endP := 12
-	if c.focus == "C08" || c.focus == "C02" {
+	if c.focus == "C08" || c.focus == "C02" || c.focus == "C11" {
 		endP = 22
 	}
 	if g.Chance(endP) {
 		*inBlock = false
 		fail := "-"
-		if g.Chance(map[string]int{"C02": 40}[c.focus] + 10) {
+		if g.Chance(map[string]int{"C02": 40, "C11": 40}[c.focus] + 10) {
 			var fs []string
 			for ri, r := range s.Ras {
 				if r.Exists && r.Latest > r.LastFin && g.Chance(60) {
